@@ -142,6 +142,8 @@ def install_externals(interp, funcs, extra=None):
         if name == 'eval':
             raw, g = args[0], args[1]
             if isinstance(g, Globals):
+                from .objects import may_raise
+                may_raise(interp_, 'eval')        # evaluating an annotation runs arbitrary user code
                 rv = sym.to_mv(raw).val if not isinstance(raw, SymVal) else raw.t
                 return SymVal(EVALIN(rv, g.func.t))
             raise EngineLimit('eval outside a function globals')
